@@ -22,12 +22,15 @@ func init() {
 			"(R8) error discipline over package modules (an error of a lifecycle pass - including the one a panicking routine was converted into - must reach the caller): " + repoErrText + ". " +
 			"(R9) in Start, Shutdown and ManageModules the error of every prepare/start/stop pass flows into the function's returned error (it is not merely logged or overwritten by a later pass). " +
 			"(R10) reporting a panic never blocks the recovery handler (= C15-R5). " +
+			"(R11) in every deferred recover() handler of packages modules and api, each path on which recover() returned non-nil passes ModuleError.Report before the handler ends (no further condition may skip the report). " +
+			"(R12) prepareModules/startModules/stopModules never forget an error carried by a module's report: after report.err tested non-nil no literal 'return nil' is reachable, and a returned accumulator is overwritten inside the loop only by a report error tested non-nil. " +
 			"NOT decided: panics in goroutines that user code spawns itself, process-level behaviour.",
 		Rules: []ruleFn{c06R1, c06R2, c06R3, c06R4, c06R5, c06R6,
 			lockRuleFor("C06-R7", 25, []string{"modules"}, []string{}, map[string]string{}),
 			repoErrRuleFor("C06-R8", 12, func(c *Ctx, fn *ssa.Function) bool { return short(fn.Pkg.Pkg.Path()) == "modules" }, map[string]string{"modules.(*Module).setFailure / modules.Module.RunWorker": "failure-status notification worker; its own panics are reported through the module error channel"}),
 			c06R9,
-			func(c *Ctx, r *Report) { reportNeverBlocksRule(c, r, "C06-R10") }},
+			func(c *Ctx, r *Report) { reportNeverBlocksRule(c, r, "C06-R10") },
+			c06R11, c06R12},
 	})
 }
 
